@@ -386,7 +386,7 @@ def run(ctx):
            for n in walk_local(di.node))
   ctx.check(ok, 'C02.containers', construct(di), "dict items require ':' between key and value", "dict items no longer require ':'", di.loc(), instance='dict-colon')
 
-  shared_results(ctx, 'C02.containers')
+  ctx.section(shared_results, ctx, 'C02.containers')
   eos(ctx, 'C02.eos')
 
 
